@@ -63,6 +63,11 @@ PROGRAMS = {
                  'def R0 : Register<"r0">; def R1 : Register<"r1">;\ndef GPR : RegisterClass<[R0, R1]>;\ndef u { Register first = !head(GPR.Members); string nm = GPR.Members[1].Name; }'),
     "pattern": ('def add; def set; class ValueType<int s> { int Size = s; } def i32 : ValueType<32>; class RC { ValueType vt = i32; } def GPR : RC;\n'
                 'class Pat<dag p, dag r> { dag Pattern = p; dag Result = r; }\ndef : Pat<(set GPR:$d, (add GPR:$a, GPR:$b)), (add GPR:$a, GPR:$b)>;'),
+    # an `!if` / `!cond` whose other branch is "nothing" (`?`, `[]`): the result has the type of the branch that says something
+    "if_or_nothing": ('class Reg<int n> { int Num = n; }\ndef R0 : Reg<0>; def R1 : Reg<1>;\ndefvar enabled = 1;\n'
+                      'def u { int first = !if(enabled, R0, ?).Num; int second = !if(enabled, ?, R1).Num; list<int> l = !if(enabled, [1, 2], []); list<int> m = !if(enabled, [], [3]); '
+                      'string s = !if(enabled, "a", ?); }\n'
+                      'defvar pick = !if(enabled, R1, ?);\ndef Alias : Reg<pick.Num>;\ndefvar chosen = !if(enabled, [R0, R1], []);\nforeach r = chosen in { def X#r.Num : Reg<r.Num>; }'),
     "named_targs": 'class A<int x, int y = 2, string z = "q"> { int s = !add(x, y); string t = z; } def a : A<1>; def b : A<1, 3>; def c : A<1, 3, "w">;',
     "nested_foreach": 'class A<int i, int j> { int s = !mul(i, j); } foreach i = [1, 2] in foreach j = [3, 4] in def p#i#_#j : A<i, j>;',
     "defvar_scopes": 'defvar base = 10; class A<int n> { int v = !add(n, base); } foreach i = [1,2] in { defvar k = !add(i, base); def d#i : A<k>; }',
@@ -91,6 +96,12 @@ FAULTY = {
     "defm_class_argument_type": 'class A; class Tag<int n> { int t = n; } multiclass M { def _a : A; } defm k : M, Tag<«"s"»>;',
     "defm_first_parent_is_a_class": 'class A; class Tag<int n> { int t = n; } defm q : «Tag»<1>;',
     "range_let_wrong_type": 'class I { bits<16> Inst; let Inst{3...0} = «"s"»; }',
+    "if_or_nothing_list_type": 'defvar c = 1; def u { list<string> xs = !if(c, «[1, 2]», []); }',
+    "if_or_nothing_scalar_type": 'defvar c = 1; def u { string n = !if(c, «3», ?); }',
+    "nothing_or_if_list_type": 'defvar c = 1; def u { list<string> xs = !if(c, [], «[1, 2]»); }',
+    "if_or_nothing_template_argument": 'defvar c = 1; class Takes<list<int> xs> { list<int> v = xs; } def t : Takes<!if(c, «["a", "b"]», [])>;',
+    "if_derived_or_base": 'class B; class D : B; def d1 : D; def b1 : B; def u { D bad = «!if(1, d1, b1)»; }',
+    "if_base_or_derived": 'class B; class D : B; def d1 : D; def b1 : B; def u { D bad = «!if(1, b1, d1)»; }',
     "bit_range_too_narrow": 'def u { bits<4> b = {1,0,1,0}; bits<2> w = «b{3...0}»; }',
 }
 
